@@ -6,6 +6,7 @@ import (
 	"runtime"
 	"strings"
 	"sync"
+	"sync/atomic"
 
 	"github.com/mandykoh/prism/linear"
 
@@ -124,3 +125,24 @@ func firstUseBurst(n int, stagger bool, f func(g int)) {
 var burstVariants = []string{"burst@2", "burst+stagger@2", "burst@4", "burst+stagger@4", "burst@16", "burst+stagger@16", "burst+stagger@3", "burst@8"}
 
 func isBurst(variant string) bool { return strings.HasPrefix(variant, "burst") }
+
+// firstUsePhases runs f(g, phase) for phase = 0..phases-1 on n goroutines with a spin barrier in
+// front of every phase, so that the n calls of a phase arrive almost simultaneously.
+func firstUsePhases(n, phases int, f func(g, phase int)) {
+	arrive := make([]atomic.Int32, phases)
+	var wg sync.WaitGroup
+	for g := 0; g < n; g++ {
+		wg.Add(1)
+		go func(g int) {
+			defer wg.Done()
+			for ph := 0; ph < phases; ph++ {
+				arrive[ph].Add(1)
+				for int(arrive[ph].Load()) < n {
+					runtime.Gosched()
+				}
+				f(g, ph)
+			}
+		}(g)
+	}
+	wg.Wait()
+}
